@@ -92,7 +92,11 @@ where
     let start = dst.len();
 
     loop {
-        let src = reader.fill_buf()?;
+        let src = match reader.fill_buf() {
+            Ok(src) => src,
+            Err(e) if e.kind() == io::ErrorKind::Interrupted => continue,
+            Err(e) => return Err(e),
+        };
 
         if r#match.is_some() || src.is_empty() {
             break;
